@@ -178,6 +178,9 @@ ISAR_SNIPPETS = [
     '<constant name="KK" value="7/2"/><struct name="SK"><member name="a" type="u8"><dimension size="KK"/></member></struct>',
     '<constant name="KK" value="1/0"/>', '<constant name="KK" value="shiftLeft(1, 70)"/>',
     '<constant name="KK" value="shiftLeft(1"/>', '<constant name="KK" value=""/>', '<constant name="KK"/>',
+    '<constant name="KK" value="1+"/>',
+    '<constant name="KK" value="(1"/><struct name="SKK"><member name="a" type="u8"><dimension size="KK"/></member></struct>',
+    '<struct name="SKK"><member name="a" type="u8"><dimension size="2*"/></member></struct>',
     '<constant value="1"/>', '<constant name="KK" value="bitMaskOr(1, nope)"/>',
     '<enum name="EE"><enum-member name="EE_A" value="1"/><enum-member name="EE_B" value="1"/></enum>',
     '<enum name="EE"><enum-member name="EE_A" value="abc"/></enum>', '<enum name="EE"><enum-member name="EE_A"/></enum>',
@@ -250,7 +253,7 @@ def draw_xml_corruption(tape, text, names):
         return {"k": "attr_del", "i": tape.draw(256)}
     if mode == 2:
         return {"k": "attr_set", "i": tape.draw(256),
-                "text": tape.pick((names or ["x"]) * 2 + ["", "0", "-1", "abc", "1/2", "u8", "Nope", "99999999999999999999",
+                "text": tape.pick((names or ["x"]) * 2 + ["", "0", "-1", "abc", "1/2", "u8", "Nope", "99999999999999999999", "1+", "(2", "3 *",
                                                          "@", "a b", "shiftLeft(1,2)", "8 bit integer unsigned"])}
     if mode == 3:
         return {"k": "elem_dup", "i": tape.draw(64)}
@@ -279,7 +282,7 @@ def draw_patch(tape, schema):
             sname, mname = s["name"], m["name"]
         else:
             sname, mname = "Nope", "x"
-        kind = tape.draw(16)
+        kind = tape.draw(19)
         if kind == 0:
             lines.append("%s type %s u32" % (sname, mname))
         elif kind == 1:
@@ -310,6 +313,16 @@ def draw_patch(tape, schema):
             lines.append("Absent type x u8")                           # rule naming an absent message: ignored
         elif kind == 14:
             lines.append("%s static %s abc" % (sname, mname))
-        else:
+        elif kind == 15:
             lines.append("%s rename renamed_struct" % sname)
+        elif kind == 16:
+            lines.append("%s static %s 1+" % (sname, mname))
+        elif kind == 17:
+            others = [d["name"] for d in schema["defs"] if d["name"] != sname]
+            lines.append("%s rename %s" % (sname, tape.pick(others) if others else "u8"))   # duplicate definition names
+        else:
+            tds = [d["name"] for d in schema["defs"] if d["k"] in ("typedef", "struct", "union", "enum")]
+            a = tape.pick(tds) if tds else sname
+            b = tape.pick(tds) if tds else sname
+            lines.append("%s rename %s" % (a, b))
     return "\n".join(lines) + "\n"
